@@ -88,7 +88,11 @@ func main() {
 	case "thorough":
 		os.Exit(check(append([]string{"-tier", "thorough"}, os.Args[2:]...)))
 	case "ssa":
-		p, err := load.Load(load.Config{Dir: "/repo"})
+		repoDir := "/repo"
+		if d := os.Getenv("PV_REPO"); d != "" {
+			repoDir = d
+		}
+		p, err := load.Load(load.Config{Dir: repoDir})
 		if err != nil {
 			fmt.Fprintln(os.Stderr, err)
 			os.Exit(2)
